@@ -74,7 +74,35 @@ var nearMissSchemes = []string{"np", "npmm", "mavn", "pypy", "golan", "debb", "r
 // corrupt applies a single-point corruption to a VERS string.
 func corruptVers(rt *rapid.T, s string) (string, string) {
 	k := strings.Index(s, "/")
-	switch rapid.IntRange(0, 11).Draw(rt, "ck") {
+	switch rapid.IntRange(0, 12).Draw(rt, "ck") {
+	case 12: // repeat one constraint with a slightly different (mostly invalid) version: every constraint must be validated,
+		// also one that looks like a duplicate of an earlier one
+		if k > 0 {
+			cons := strings.Split(s[k+1:], "|")
+			c := cons[rapid.IntRange(0, len(cons)-1).Draw(rt, "dupi")]
+			for _, op := range []string{">=", "<=", "!=", ">", "<", "="} {
+				if strings.HasPrefix(c, op) {
+					v := c[len(op):]
+					var v2 string
+					switch rapid.IntRange(0, 3).Draw(rt, "dupk") {
+					case 0:
+						v2 = "v" + v
+					case 1:
+						v2 = strings.ToUpper(v)
+					case 2:
+						v2 = v + gen.Pick(rt, "dupt", ".x", "-", "..", "a!", "_")
+					default:
+						v2 = gen.Corrupt(rt, v, "dupc")
+					}
+					if v2 == v || strings.ContainsAny(v2, "|") {
+						break
+					}
+					at := rapid.IntRange(0, len(cons)).Draw(rt, "dupat")
+					out := append(append(append([]string{}, cons[:at]...), op+v2), cons[at:]...)
+					return s[:k+1] + strings.Join(out, "|"), "near-duplicate"
+				}
+			}
+		}
 	case 0: // delete one character anywhere
 		i := rapid.IntRange(0, len(s)-1).Draw(rt, "ci")
 		return s[:i] + s[i+1:], "delete"
